@@ -31,6 +31,7 @@ impl Vt {
     pub fn feed(&mut self, input: char) {
         if let Some(op) = self.parser.feed(input) {
             self.terminal.execute(op);
+            self.terminal.gc_alternate();
         }
     }
 
